@@ -53,6 +53,27 @@ int main() {
       if (!(r <= 1e4 * n * 2.2e-16 * (H.norm() + 1e-300))) fail("UpperHessenbergEigen: ||H x - lambda x|| too large", n, p, sc);
     } catch (const std::exception&) {}
   }
+  // weighted lower-shift matrices (zero diagonal and upper triangle, non-zero sub-diagonal): the l1 norm that decides the zero-matrix exit must see the sub-diagonal
+  for (int n = 3; n <= 8 && !bad; n++) for (int w = 0; w < 3 && !bad; w++) {
+    Eigen::MatrixXd H = Eigen::MatrixXd::Zero(n, n); for (int i = 1; i < n; i++) H(i, i - 1) = w == 0 ? 1.0 : (w == 1 ? (double)(i + 1) : std::pow(0.5, i));
+    try { UpperHessenbergSchur<double> sch(H); Eigen::MatrixXd U = sch.matrix_U(), S = sch.matrix_T();
+      bool quasi = true; for (int i = 1; i < n && quasi; i++) for (int j = 0; j < i && quasi; j++) { if (j < i - 1 && S(i, j) != 0) quasi = false; if (j == i - 1 && S(i, j) != 0 && i >= 2 && S(i - 1, i - 2) != 0) quasi = false; }
+      if (!quasi || !((U * S * U.transpose() - H).norm() <= 1e-9 * H.norm())) fail("Schur of a weighted lower-shift matrix: T is not quasi-upper-triangular / U T U' != H (the matrix was taken for the zero matrix)", n, w, 1.0);
+    } catch (const std::exception&) {}
+    try { UpperHessenbergEigen<double> he(H); Eigen::VectorXcd ev = he.eigenvalues(); Eigen::MatrixXcd V = he.eigenvectors();
+      double r = (H.cast<std::complex<double>>() * V - V * ev.asDiagonal()).norm();
+      if (!(r <= 1e-6 * H.norm())) fail("UpperHessenbergEigen of a weighted lower-shift matrix: ||H x - lambda x|| of order 1", n, w, 1.0);
+    } catch (const std::exception&) {}
+  }
+  // single precision (packet width 4 in the SIMD Householder kernel): every row of the three columns has to be transformed
+  for (int n = 3; n <= 14 && !bad; n++) for (int p = 0; p < 3 && !bad; p++) {
+    Eigen::MatrixXf H = Eigen::MatrixXf::Zero(n, n);
+    for (int i = 0; i < n; i++) for (int j = 0; j < n; j++) if (i <= j + 1) H(i, j) = (float)((((i * 7 + j * 5 + p) % 7) - 3.0) + 0.25 * ((i + 2 * j) % 3));
+    try { UpperHessenbergSchur<float> sch(H); Eigen::MatrixXf U = sch.matrix_U(), S = sch.matrix_T();
+      float e1 = (U * S * U.transpose() - H).norm(), e2 = (U.transpose() * U - Eigen::MatrixXf::Identity(n, n)).norm();
+      if (!(e1 <= 500 * n * 1.2e-7f * (H.norm() + 1e-30f)) || !(e2 <= 500 * n * 1.2e-7f)) fail("Schur<float>: U T U' = H / U'U = I violated (a row of the Householder update was skipped?)", n, p, 1.0);
+    } catch (const std::exception&) {}
+  }
   // small integer Hessenberg matrices: the family in which the Francis iteration occasionally needs its exceptional shifts
   { unsigned long st = 12345; auto rnd = [&]() { st = st * 6364136223846793005UL + 1442695040888963407UL; return (int)((st >> 33) % 5) - 2; };
     for (long trial = 0; trial < 400000 && !bad; trial++) { int n = 4 + (int)(trial % 5); Eigen::MatrixXd H = Eigen::MatrixXd::Zero(n, n);
